@@ -12,6 +12,7 @@ import (
 	"math"
 	"os"
 	"sort"
+	"strconv"
 	"strings"
 
 	"github.com/fluhus/biostuff/align"
@@ -369,6 +370,47 @@ func (c *Ctx) independentInputs(name string) []wfInput {
 					fmt.Sprintf("%d,%d,%d", r.ItemRGB[0], r.ItemRGB[1], r.ItemRGB[2]), itoa(r.BlockCount), ints(r.BlockSizes), ints(r.BlockStarts)}
 				b.WriteString(strings.Join(f[:r.N], "\t") + "\n")
 				want = append(want, bedS(truncBed(r)))
+			}
+		case "newick":
+			// names: bare when they consist of plain bytes, quoted (quotes doubled) otherwise; distances 0, k or k.5
+			var render func(n *newick.Node) string
+			render = func(n *newick.Node) string {
+				t := ""
+				if len(n.Children) > 0 {
+					var ks []string
+					for _, ch := range n.Children {
+						ks = append(ks, render(ch))
+					}
+					t = "(" + strings.Join(ks, ",") + ")"
+				}
+				plain := true
+				for _, ch := range []byte(n.Name) {
+					if ch <= ' ' || ch == 0x7f || strings.IndexByte("(),:;'_", ch) >= 0 {
+						plain = false
+					}
+				}
+				if plain && c.rng.Intn(4) > 0 {
+					t += n.Name
+				} else {
+					t += "'" + strings.ReplaceAll(n.Name, "'", "''") + "'"
+				}
+				if n.Distance != 0 {
+					t += ":" + strconv.FormatFloat(n.Distance, 'f', -1, 64)
+				}
+				return t
+			}
+			for k := 0; k < 1+c.rng.Intn(3); k++ {
+				t := c.randTree(1 + c.rng.Intn(8))
+				var fix func(n *newick.Node)
+				fix = func(n *newick.Node) {
+					n.Distance = []float64{0, 0, 1, 2.5, -3, 100, 0.125}[c.rng.Intn(7)]
+					for _, ch := range n.Children {
+						fix(ch)
+					}
+				}
+				fix(t)
+				b.WriteString(render(t) + ";" + []string{"", "\n", " "}[c.rng.Intn(3)])
+				want = append(want, treeS(t))
 			}
 		default:
 			return nil
